@@ -105,7 +105,7 @@ def check(run):
                                "note": "single-piece output compared with the Scan transcription; informative only"},
         "exhaustive": False,
         "exhaustive_parts": "spec: every scenario of the MC configs x every cut set; code: every scenario x every single cut, "
-                            "every pair of cuts in the first 48 bytes, dribble, fixed-size reads 2..32",
+                            "every pair of cuts in the first 48 bytes, dribble, fixed-size reads 2..32, empty reads (cut at 0 / at the end / repeated cuts)",
         "samples": [{"frames_hex": [bytes(f).hex() for f in events[0]["frames"]],
                      "n_chunkings": events[0]["n_chunkings"]},
                     {"frames_hex": [bytes(f).hex() for f in events[-1]["frames"]][:3],
